@@ -118,7 +118,7 @@ class HistoryGen:
         items = []
         keys = set()
         base = ["CHARTNAME", "STEPSTYPE", "DESCRIPTION", "CHARTSTYLE", "DIFFICULTY", "METER", "RADARVALUES", "CREDIT",
-                "BPMS", "OFFSET", "DISPLAYBPM", "ATTACKS", "MUSIC", "LABELS"]
+                "BPMS", "OFFSET", "DISPLAYBPM", "ATTACKS", "MUSIC", "LABELS", "NOTES3", "NOTESAUTHOR", "XNOTES", "NOTE", "NOTEDATA2"]
         for _ in range(n):
             k = rng.choice(base) if rng.random() < 0.6 else self.key()
             if k in keys or k in ("NOTES", "NOTES2"):
